@@ -321,6 +321,51 @@ func runC19(p *an.Prog, r *an.Run, tier string) {
 	}
 	r.Check(len(bad) == 0, "refuse-unknown", an.FuncName(conn), conn.Pos(), "no registration without a determinable, normalised address", "%s", strings.Join(bad, "; "))
 
+	// ---- refuse-unknown, transport side: connect refuses a host whose connection reports no address. That only works
+	// if address-less transports (the stream codec over pipes / unix sockets) really report none: in the RPC library a
+	// reported address comes from an HTTP request or from the network connection type a websocket codec was built on,
+	// never from duck-typing whatever io value a codec wraps.
+	bad = nil
+	nSrc := 0
+	for _, fn := range p.Repo {
+		if p.IsTestFunc(fn) || fn.Pkg == nil || !strings.Contains(fn.Pkg.Pkg.Path(), "/jsonrpc2") {
+			continue
+		}
+		var vals []ssa.Value
+		an.AllInstrs(fn, func(in ssa.Instruction) {
+			switch x := in.(type) {
+			case *ssa.Store:
+				if fv := an.FieldOf(x.Addr); fv != nil && fv.Name() == "remoteAddr" {
+					vals = append(vals, x.Val)
+				}
+			case *ssa.Return:
+				if fn.Name() == "RemoteAddr" && fn.Signature.Recv() != nil && len(x.Results) == 1 {
+					vals = append(vals, an.RetResults(x)[0])
+				}
+			}
+		})
+		for _, v := range vals {
+			nSrc++
+			for _, n := range p.Derives(0, v).Nodes {
+				c, ok := n.(*ssa.Call)
+				if !ok || !c.Common().IsInvoke() || c.Common().Method.Name() != "RemoteAddr" {
+					continue
+				}
+				if _, named := c.Common().Value.Type().(*types.Named); !named {
+					bad = append(bad, an.FuncName(fn)+" reports the address of whatever value it wraps ("+p.Pos(c.Pos())+", RemoteAddr() through an ad-hoc interface): a pipe or unix socket then yields \"pipe\" or a socket path, which connect would store as the host's address instead of refusing")
+					continue
+				}
+				for _, m := range p.Derives(0, c.Common().Value).Nodes {
+					if ta, ok := m.(*ssa.TypeAssert); ok {
+						bad = append(bad, an.FuncName(fn)+" reports the address of a connection type discovered by type assertion ("+p.Pos(ta.Pos())+")")
+					}
+				}
+			}
+		}
+	}
+	r.Floor("remote-addr-sources", nSrc, 4)
+	r.Check(len(bad) == 0, "refuse-unknown", "jsonrpc2.remote-addr-sources", token.NoPos, "address-less transports report no address", "%s", strings.Join(dedup(bad), "; "))
+
 	// ---- default
 	bad = nil
 	if nzCall != nil {
@@ -575,7 +620,35 @@ func runC20(p *an.Prog, r *an.Run, tier string) {
 		bad = append(bad, "the keep-alive loop can end at "+p.Pos(in.Pos())+" without clearing the started flag: after a failed keep-alive (or a stop) the agent could not be started again")
 	}
 	// a deferred reset must be registered at entry (dominates everything) — covered by the path check starting at the entry
-	r.Check(len(bad) == 0, "test-and-set", an.FuncName(serve), serve.Pos(), "every exit of the loop clears the started flag under a.mu", "%s", strings.Join(bad, "; "))
+	// who may write the flag: Start and the loop (directly or through the reset helpers). Any other function writing it
+	// (e.g. the public forced-update entry clearing it on a pool error) clears it behind a loop that is still running,
+	// and the next Start spawns a second loop
+	for _, fn := range p.Repo {
+		if fn == start || fn == serve || p.IsTestFunc(fn) {
+			continue
+		}
+		if fn.Parent() != nil && (fn.Parent() == start || fn.Parent() == serve) {
+			continue
+		}
+		if _, isHelper := helpers[fn]; isHelper {
+			for _, site := range p.StaticSites(fn) {
+				c := site.Parent()
+				for c.Parent() != nil {
+					c = c.Parent()
+				}
+				if c != start && c != serve && !p.IsTestFunc(c) {
+					bad = append(bad, an.FuncName(c)+" changes the started flag through "+an.FuncName(fn)+" ("+p.Pos(site.Pos())+"), outside Start and the keep-alive loop: the flag no longer says whether a loop is running")
+				}
+			}
+			continue
+		}
+		an.AllInstrs(fn, func(in ssa.Instruction) {
+			if st, ok := in.(*ssa.Store); ok && isStartedAddr(st.Addr) {
+				bad = append(bad, an.FuncName(fn)+" writes the started flag at "+p.Pos(st.Pos())+", outside Start and the keep-alive loop")
+			}
+		})
+	}
+	r.Check(len(bad) == 0, "test-and-set", an.FuncName(serve), serve.Pos(), "every exit of the loop clears the started flag under a.mu; nothing else writes it", "%s", strings.Join(dedup(bad), "; "))
 
 	// ---- single-spawn
 	bad = nil
@@ -713,6 +786,47 @@ func runC20(p *an.Prog, r *an.Run, tier string) {
 	if !okPeriod {
 		bad = append(bad, "the keep-alive period does not come from UpdateInterval")
 	}
+	// every run of the loop ticks on a timer made for that run: the channel it waits on comes from a time.Tick /
+	// NewTicker / After call in serveUpdates itself that is executed on every run — not from a ticker kept in a field
+	// (a restarted agent would wait on the previous run's stopped ticker and never send a keep-alive)
+	an.AllInstrs(serve, func(in ssa.Instruction) {
+		sel, ok := in.(*ssa.Select)
+		if !ok {
+			return
+		}
+		for _, st := range sel.States {
+			if st.Dir != types.RecvOnly {
+				continue
+			}
+			tt, ok := st.Chan.Type().Underlying().(*types.Chan)
+			if !ok || !isNamedType(tt.Elem(), "Time") {
+				continue
+			}
+			d := p.Derives(0, st.Chan)
+			fresh := false
+			for _, n := range d.Nodes {
+				if c, ok := n.(*ssa.Call); ok {
+					if f := an.CallObj(c); f != nil && f.Pkg() != nil && f.Pkg().Path() == "time" && (f.Name() == "Tick" || f.Name() == "NewTicker" || f.Name() == "After" || f.Name() == "NewTimer") {
+						if c.Parent() == serve && (c.Block() == sel.Block() || c.Block().Dominates(sel.Block())) {
+							fresh = true
+						}
+					}
+				}
+			}
+			if d.HasFieldNamed("Agent", "") || !fresh {
+				for _, n := range d.Nodes {
+					if fv := an.FieldOf(n); fv != nil {
+						if nn := structOfFieldAccess(n); nn != nil && nn.Obj().Name() == "Agent" {
+							bad = append(bad, "the loop waits on a timer kept in the agent (field "+fv.Name()+"), not on one made for this run: after Stop and a new Start it is the old, stopped one and no keep-alive is ever sent")
+						}
+					}
+				}
+				if !fresh {
+					bad = append(bad, "the loop's tick channel is not produced by a timer created on every run of serveUpdates")
+				}
+			}
+		}
+	})
 	// each keep-alive gets a context that is alive for that keep-alive: a deadline context created once outside the
 	// loop expires and every later keep-alive fails
 	for _, c := range an.Calls(serve, false) {
